@@ -2571,6 +2571,84 @@ func c18r16(c *Ctx, r *Report) {
 	r.floor("re-dispatches of event actions in Terminal.Loop", n, 1)
 }
 
+// c11r25: SGR parameters 38, 48 and 58 (foreground, background, underline colour) are the three that are
+// followed by a colour specification (5;N or 2;R;G;B); all other parameters may carry colon-separated
+// sub-parameters that belong to them (4:3 = curly underline). interpretCode has to consume both, or the numbers
+// are read as parameters of their own (D98: it knew neither: ESC[58;5;0m was read as blink + reset and
+// ESC[31;4:0m as red + underline + reset: the colour set before was lost).
+func c11r25(c *Ctx, r *Report) {
+	l := c.L
+	r.rule("C11-R25", "E (every parameter that takes arguments consumes them)", "P1",
+		"in interpretCode, each of the SGR parameters 38, 48 and 58 has a case that enters the extended-colour state (increments state256), and the interpretation of a number as a parameter of its own is control dependent on a test of the separator byte ':' in front of it",
+		"the arguments of an underline colour, or the sub-parameter of an underline style, are read as bold / blink / reset: text loses the colours the input gave it")
+	fd := fzfFuncDecl(l, "fzf", "interpretCode")
+	fn := l.Fn("fzf", "interpretCode")
+	if fd == nil || fn == nil {
+		r.unest("anchors", token.NoPos, nil, "anchor interpretCode", "cannot resolve")
+		return
+	}
+	enters := map[string]token.Pos{}
+	ast.Inspect(fd.Body, func(nd ast.Node) bool {
+		cc, ok := nd.(*ast.CaseClause)
+		if !ok {
+			return true
+		}
+		inc := false
+		for _, st := range cc.Body {
+			if ids, ok := st.(*ast.IncDecStmt); ok && ids.Tok == token.INC {
+				if id, ok := ids.X.(*ast.Ident); ok && id.Name == "state256" {
+					inc = true
+				}
+			}
+		}
+		if !inc {
+			return true
+		}
+		for _, e := range cc.List {
+			if lit, ok := e.(*ast.BasicLit); ok && lit.Kind == token.INT {
+				enters[lit.Value] = cc.Pos()
+			}
+		}
+		return true
+	})
+	// ECMA-48 / ITU-T T.416: the parameters that are followed by a colour specification
+	for _, p := range []string{"38", "48", "58"} {
+		_, ok := enters[p]
+		r.check(ok, "fzf.interpretCode:parameter "+p+" consumes its colour specification", fd.Pos(), fn,
+			"a case for "+p+" enters the extended-colour state", "SGR "+p+" has no case that enters the extended-colour state: the numbers that follow it are read as parameters of their own")
+	}
+	// the sub-parameter test
+	cc := cdCache{}
+	n := 0
+	eachInstr(fn, func(in ssa.Instruction) {
+		// count++ marks "this number is interpreted as a parameter"
+		bo, ok := in.(*ssa.BinOp)
+		if !ok || bo.Op != token.ADD || !isConstInt(bo.Y, 1) {
+			return
+		}
+		phi, ok := bo.X.(*ssa.Phi)
+		if !ok || phi.Comment != "count" {
+			return
+		}
+		n++
+		sepTest := false
+		for cond := range cc.of(in) {
+			for v := range backwardSlice(cond, nil, nil) {
+				cmp, ok := v.(*ssa.BinOp)
+				if !ok || (cmp.Op != token.EQL && cmp.Op != token.NEQ) || !isConstInt(cmp.Y, ':') {
+					continue
+				}
+				if bt, ok := cmp.X.Type().Underlying().(*types.Basic); ok && bt.Kind() == types.Uint8 {
+					sepTest = true
+				}
+			}
+		}
+		r.check(sepTest, fmt.Sprintf("%s:a number after a colon is not a parameter of its own (#%d)", relName(fn), n), in.Pos(), fn,
+			"depends on a test of the separator ':'", "every number is interpreted as a parameter, whether it follows ';' or ':'")
+	})
+	r.floor("places where interpretCode counts a parameter", n, 1)
+}
+
 func round10(c *Ctx, r *Report, prop string) {
 	switch prop {
 	case "C01":
@@ -2600,6 +2678,7 @@ func round10(c *Ctx, r *Report, prop string) {
 		c11r22(c, r)
 		c11r23(c, r)
 		c11r24(c, r)
+		c11r25(c, r)
 	case "C16":
 		c16r21(c, r)
 	case "C07":
